@@ -14,18 +14,25 @@ import (
 
 // Profile selects the mix of a property's generator.
 type Profile struct {
-	Module    string // Obs.C10 / Obs.C11
-	Runs      int    // generated conversations (quick tier)
-	Parses    int    // generated parser-only cases (quick tier)
-	TimedPct  int    // conversations with real sleeps
-	FaultPct  int    // conversations with injected network faults
-	OddPct    int    // conversations whose registry sends odd / malformed challenges
-	ConcPct   int    // conversations played as an interleaved batch
-	HoldPct   int    // conversations in which a token server keeps a call waiting while others arrive (gen_hold.go)
-	CfgPct    int    // conversations in which a config lookup is slow while other calls arrive (gen_cfg.go)
-	HostPct   int    // requests whose Host field differs from URL.Host (a caller-supplied Host header)
-	BodyPct   int    // requests that carry a body
-	Unlimited bool   // allow the unlimited scope as required / desired scope
+	Module   string // Obs.C10 / Obs.C11
+	Runs     int    // generated conversations (quick tier)
+	Parses   int    // generated parser-only cases (quick tier)
+	TimedPct int    // conversations with real sleeps
+	FaultPct int    // conversations with injected network faults
+	OddPct   int    // conversations whose registry sends odd / malformed challenges
+	ConcPct  int    // conversations played as an interleaved batch
+	HoldPct  int    // conversations in which a token server keeps a call waiting while others arrive (gen_hold.go)
+	CfgPct   int    // conversations in which a config lookup is slow while other calls arrive (gen_cfg.go)
+	HostPct  int    // requests whose Host field differs from URL.Host (a caller-supplied Host header)
+	BodyPct  int    // requests that carry a body
+	// second uses, contexts, redirects (gen_reuse.go)
+	ReusePct    int  // calls that send an earlier call's *http.Request again, or share its http.Header map
+	CtxPct      int  // requests whose context already carries (outer) annotations / annotates the empty scope explicitly
+	CancelPct   int  // requests whose context is dead (cancelled, past its deadline) or is cancelled mid-call
+	RedirPct    int  // conversations in which token servers answer with 3xx redirects
+	SweepPct    int  // weight of the family "several short-lived tokens expire together" among the directed ones
+	DirectedPct int  // conversations from the directed families for the five above
+	Unlimited   bool // allow the unlimited scope as required / desired scope
 }
 
 var scopeTexts = []string{
@@ -226,6 +233,15 @@ func genReq(r *rand.Rand, p *Profile, hosts []HostCfg, focus int) *Req {
 			}
 		}
 	}
+	if p.CtxPct > 0 && r.Intn(100) < p.CtxPct {
+		addLayers(r, p, q)
+	}
+	if p.CancelPct > 0 && r.Intn(100) < p.CancelPct {
+		q.Cancel = pick(r, []string{"pre", "pre", "deadline"})
+		if q.Body == "none" && r.Intn(2) == 0 {
+			q.Body = pick(r, []string{"plain", "get", "getfail"})
+		}
+	}
 	return q
 }
 
@@ -261,20 +277,29 @@ func GenCase(r *rand.Rand, p *Profile) *CaseIn {
 	if p.HoldPct > 0 && r.Intn(100) < p.HoldPct {
 		return genHold(r, p)
 	}
+	if p.DirectedPct > 0 && r.Intn(100) < p.DirectedPct {
+		return genDirected(r, p)
+	}
 	odd := r.Intn(100) < p.OddPct
 	in := &CaseIn{Class: "seq"}
 	in.Hosts, in.Realms = genHosts(r, p, odd)
 	focus := r.Intn(2)
 	timed := r.Intn(100) < p.TimedPct
 	conc := r.Intn(100) < p.ConcPct
+	redir := p.RedirPct > 0 && r.Intn(100) < p.RedirPct
+	if redir {
+		addRedirects(r, in.Realms)
+	}
 	n := r.Intn(6) + 2
 	if conc {
 		in.Class = "conc"
 		n = r.Intn(3) + 2
 		// a warm-up call first, so that the batch meets a registry with a challenge on record
 		id := 0
+		var warm *Req
 		if r.Intn(2) == 0 {
-			in.Steps = append(in.Steps, Step{Op: "start", ID: 100, Req: genReq(r, p, in.Hosts, focus)},
+			warm = genReq(r, p, in.Hosts, focus)
+			in.Steps = append(in.Steps, Step{Op: "start", ID: 100, Req: warm},
 				Step{Op: "resume", ID: 100}, Step{Op: "resume", ID: 100})
 		}
 		type pend struct{ id, left int }
@@ -286,13 +311,22 @@ func GenCase(r *rand.Rand, p *Profile) *CaseIn {
 			i := r.Intn(len(ps))
 			pd := ps[i]
 			if pd.left == 3 {
-				in.Steps = append(in.Steps, Step{Op: "start", ID: pd.id, Req: genReq(r, p, in.Hosts, focus)})
+				q := genReq(r, p, in.Hosts, focus)
+				if warm != nil && p.ReusePct > 0 && r.Intn(100) < p.ReusePct {
+					// built around the header map of the warm-up call's request (one call of the batch only:
+					// the caller itself writes to that map when it prepares a request)
+					q.Reuse, q.Of, q.Auth = "hdr", 100, warm.Auth
+					warm = nil
+				}
+				in.Steps = append(in.Steps, Step{Op: "start", ID: pd.id, Req: q})
 			} else {
 				in.Steps = append(in.Steps, Step{Op: "resume", ID: pd.id})
 			}
 			pd.left--
 			if pd.left == 0 {
 				ps = append(ps[:i], ps[i+1:]...)
+			} else if p.CancelPct > 0 && r.Intn(200) < p.CancelPct {
+				in.Steps = append(in.Steps, Step{Op: "cancel", ID: pd.id}) // the caller gives up mid-call
 			}
 			if timed && r.Intn(4) == 0 {
 				in.Steps = append(in.Steps, Step{Op: "sleep", Ms: pick(r, sleeps)})
@@ -300,18 +334,33 @@ func GenCase(r *rand.Rand, p *Profile) *CaseIn {
 		}
 	} else {
 		var last *Req
+		var made []*Req
 		for id := 0; id < n; id++ {
 			q := genReq(r, p, in.Hosts, focus)
 			if last != nil && r.Intn(3) == 0 {
 				// the same again: the cache should answer
 				cp := *last
+				cp.Reuse = ""
 				q = &cp
 			} else if nq := narrower(r, last); nq != nil && r.Intn(3) == 0 {
 				// one piece of what the previous call asked for: the cache should answer as well
 				q = nq
 			}
+			if last != nil && p.CtxPct > 0 && r.Intn(100) < p.CtxPct {
+				// (a part of) what the previous call asked for, under a context that carries other annotations already
+				q = nested(r, p, last)
+			}
+			if id > 0 && p.ReusePct > 0 && r.Intn(100) < p.ReusePct {
+				q = reuseOf(r, in.Hosts, made, q)
+			}
 			last = q
+			made = append(made, q)
 			in.Steps = append(in.Steps, Step{Op: "start", ID: id, Req: q}, Step{Op: "resume", ID: id}, Step{Op: "resume", ID: id})
+			if p.CancelPct > 0 && r.Intn(100) < p.CancelPct {
+				// the caller gives up mid-call: after the first or after the second attempt went out
+				k := len(in.Steps) - 2 + r.Intn(2)
+				in.Steps = append(in.Steps[:k], append([]Step{{Op: "cancel", ID: id}}, in.Steps[k:]...)...)
+			}
 			if timed && r.Intn(2) == 0 {
 				in.Steps = append(in.Steps, Step{Op: "sleep", Ms: pick(r, sleeps)})
 			}
@@ -322,6 +371,9 @@ func GenCase(r *rand.Rand, p *Profile) *CaseIn {
 	}
 	if odd {
 		in.Class += "-odd"
+	}
+	if redir {
+		in.Class += "-redir"
 	}
 	genFaults(r, p, in)
 	return in
@@ -461,6 +513,23 @@ func emitRun(out *hx.Out, in *CaseIn, obs *Observed) {
 		}
 		if e.Kind == "start" && e.Req.Body == "get" {
 			out.Count("req:body-with-getbody")
+		}
+		if e.Kind == "start" {
+			if e.Req.Reuse != "" {
+				out.Count("req:reuse-" + e.Req.Reuse)
+			}
+			if len(e.Req.Outer) > 0 {
+				out.Count("req:nested-context")
+			}
+			if e.Req.Cancel != "" {
+				out.Count("req:context-dead-" + e.Req.Cancel)
+			}
+		}
+		if e.Kind == "hop" {
+			out.Count("hop:" + e.Msg.Kind + ":" + e.Msg.Auth.Kind)
+		}
+		if (e.Kind == "send" || e.Kind == "hop") && e.Resp.Loc != nil {
+			out.Count("tokresp:redirect-" + strconv.Itoa(e.Resp.Status))
 		}
 		if e.Kind == "send" {
 			out.Count("msg:" + e.Msg.Kind + ":" + e.Msg.Auth.Kind)
